@@ -7,7 +7,7 @@ RULE = ("Design models: TomtomNull.tla — the code's null-distribution algorith
         "reverse complement; n_score_bins 10-50): the integerised similarity matrix is taken from the code's own integeriser, "
         "TLC computes best score, admissible (offset, overlap, strand) set, exact p-value (brute-force enumeration of column "
         "draws, strand merge) and the monotonicity of the integeriser against exact squared distances; the implementation's "
-        "score must be equal, its alignment admissible, its p-value within 1e-9. Thorough adds lengths up to 25 (scores and "
+        "score must be equal, its alignment admissible, its p-value within 1e-9. A fifth of the quick cases and half of the thorough ones have lengths up to 25 and n_score_bins up to 200 (scores and "
         "alignments only). Where the column hash is injective the same pairs are recomputed with n_target_bins=100, with the target "
         "list reversed and with reverse-complemented targets, one call after the other in the same process, and must reproduce the "
         "validated scores and p-values. distinct_nontrivial = compared (query, target) pairs whose lengths differ or that have ties.")
@@ -23,7 +23,7 @@ def run(ctx):
     ctx.spec_mutant("TomtomNull", "TomtomNull_MC_asfound.cfg", violated="SpanMass")
     nw = 4
     per = 30 if ctx.quick else 500
-    gen = ctx.run_impl("c14", [dict(id=k, seed=ctx.seed * 7 + k, n=per, big=not ctx.quick) for k in range(nw)], nproc=nw, timeout_s=3000,
+    gen = ctx.run_impl("c14", [dict(id=k, seed=ctx.seed * 7 + k, n=per, big=True) for k in range(nw)], nproc=nw, timeout_s=3000,
                        env=dict(VERIF_CASE_TIMEOUT=1500))
     cases = []
     for k in range(nw):
